@@ -35,8 +35,8 @@ func smallTx(name string) *wire.MsgTx {
 
 // conformantMessage builds one well-formed message with the real encoders; fields and small
 // counts are symbolic. Returns command, payload and whether extended framing may be used.
-func conformantMessage(e *netEnv) (string, []byte, bool) {
-	kind := pick("kind", 16)
+func conformantMessage(e *netEnv, pre bool) (string, []byte, bool) {
+	kind := pick("kind", 17)
 	switch kind {
 	case 0:
 		m := wire.NewMsgPing(nondetU64("ping0"))
@@ -63,7 +63,7 @@ func conformantMessage(e *netEnv) (string, []byte, bool) {
 		m := wire.NewMsgHeaders()
 		n := pick("headercount", 3)
 		for i := 0; i < n; i++ {
-			h := &wire.BlockHeader{Version: 1, Timestamp: nondetU32(fmt.Sprintf("htime%d", i)), Bits: 0x1d00ffff, Nonce: uint32(i)}
+			h := &wire.BlockHeader{Version: 1, Timestamp: nondetU32(fmt.Sprintf("htime%d", i)), Bits: 0x1d00ffff, Nonce: nondetU32(fmt.Sprintf("hnonce%d", i))}
 			h.PrevBlock = symHash(fmt.Sprintf("hprev%d", i))
 			m.AddBlockHeader(h)
 		}
@@ -97,7 +97,11 @@ func conformantMessage(e *netEnv) (string, []byte, bool) {
 			}
 			buf = encodeMsg(b)
 		}
-		switch pick("blockstate", 3) {
+		nstates := 3
+		if pre {
+			nstates = 1 // an unverified node is never asked for a block
+		}
+		switch pick("blockstate", nstates) {
 		case 0: // not requested
 		case 1: // this block requested
 			hash := *h.BlockHash()
@@ -136,6 +140,10 @@ func conformantMessage(e *netEnv) (string, []byte, bool) {
 		h := symHash("getdata")
 		m.AddInvVect(wire.NewInvVect(wire.InvTypeTx, &h))
 		return m.Command(), encodeMsg(m), false
+	case 16:
+		me := wire.NewNetAddressIPPort(nondetBytes("vip", 16), 8333, 0)
+		m := wire.NewMsgVersion(me, me, nondetU64("vnonce"), int32(nondetU32("vheight")))
+		return m.Command(), encodeMsg(m), false
 	case 15:
 		m := wire.NewMsgNotFound()
 		h := symHash("notfound")
@@ -155,7 +163,7 @@ func VerifC14Framing() {
 		})
 	}
 	e.makeReady()
-	cmd, payload, mayExtend := conformantMessage(e)
+	cmd, payload, mayExtend := conformantMessage(e, false)
 	extended := mayExtend && nondetBool("extended-framing")
 	first := frameMsg(cmd, payload, extended)
 	nonce := nondetU64("ping-nonce")
